@@ -79,6 +79,7 @@ type observer struct {
 	mu     sync.Mutex
 	events [][2]string
 	priv   int64 // an unexported field: a rule can read it, but reflect refuses to hand the value out of Execute
+	flaky  map[string]*flakyState
 }
 
 func (o *observer) S(n string) {
@@ -97,6 +98,65 @@ func (o *observer) E(n string) {
 var bigText = strings.Repeat("x", 2<<20)
 
 func (o *observer) BigBoom() { panic(bigText) }
+
+// Flaky fails (panics) for the FIRST caller per rule name and succeeds for every later one — after the first has failed and a
+// little later still, so that of two simultaneous executions of one rule the successful one finishes last.  Stagger delays
+// every caller but the first; Slow delays the first.  With them one occurrence of a repeated rule fails early while the other
+// is still running (or has not yet reached the same statement).
+type flakyState struct {
+	calls, stag, slow int
+	failed            chan struct{}
+}
+
+func (o *observer) fstate(n string) *flakyState {
+	if o.flaky == nil {
+		o.flaky = map[string]*flakyState{}
+	}
+	st := o.flaky[n]
+	if st == nil {
+		st = &flakyState{failed: make(chan struct{})}
+		o.flaky[n] = st
+	}
+	return st
+}
+func (o *observer) resetFlaky() {
+	o.mu.Lock()
+	o.flaky = nil
+	o.mu.Unlock()
+}
+func (o *observer) Flaky(n string) {
+	o.mu.Lock()
+	st := o.fstate(n)
+	st.calls++
+	first := st.calls == 1
+	o.mu.Unlock()
+	if first {
+		close(st.failed)
+		panic("flaky: first execution of " + n)
+	}
+	<-st.failed
+	time.Sleep(60 * time.Millisecond)
+}
+func (o *observer) Stagger(n string) {
+	o.mu.Lock()
+	st := o.fstate(n)
+	st.stag++
+	later := st.stag > 1
+	o.mu.Unlock()
+	if later {
+		time.Sleep(80 * time.Millisecond)
+	}
+}
+func (o *observer) Slow(n string) {
+	o.mu.Lock()
+	st := o.fstate(n)
+	st.slow++
+	first := st.slow == 1
+	o.mu.Unlock()
+	if first {
+		time.Sleep(200 * time.Millisecond)
+	}
+}
 
 func (o *observer) count() int {
 	o.mu.Lock()
@@ -164,6 +224,10 @@ func eRuleText(r eRule) string {
 		sb.WriteString("  Obs.BigBoom()\n")
 	case "retpriv": // the return expression evaluates, but the value cannot leave the rule (Interface() panics): the rule FAILED
 		sb.WriteString("  return Obs.priv\n")
+	case "flaky": // fails in its first execution only (a repeated name: one occurrence fails, the other succeeds later)
+		fmt.Fprintf(&sb, "  Obs.Flaky(\"%s\")\n", r.Name)
+	case "concflaky": // the same inside a conc block, whose other child is still running when the second execution enters the block
+		fmt.Fprintf(&sb, "  Obs.Stagger(\"%s\")\n  conc {\n    Obs.Flaky(\"%s\")\n    Obs.Slow(\"%s\")\n  }\n", r.Name, r.Name, r.Name)
 	case "brk": // a break that is in no loop (grammatically legal): the rule fails, it has NOT returned
 		sb.WriteString("  if 1 == 1 {\n    break\n  }\n")
 	case "cont": // a continue that is in no loop
@@ -275,6 +339,7 @@ func runEngineCase(c *eCase) eObs {
 				ob.mu.Lock()
 				ob.events = nil
 				ob.mu.Unlock()
+				ob.resetFlaky()
 			}
 			var sb strings.Builder
 			for _, r := range op.Rules {
@@ -343,6 +408,7 @@ func runEngineCase(c *eCase) eObs {
 		ob.mu.Lock()
 		ob.events = nil
 		ob.mu.Unlock()
+		ob.resetFlaky()
 	}
 	type done struct {
 		err error
